@@ -15,6 +15,22 @@
 //   E smo i j | E shrink eps ret | E unshrink | E kkt value     each followed by <snapshot> on the same line
 //   END type iterations value accuracy
 // snapshot: active unshr fval  then n entries each of: perm alpha grad gedge lin lo hi fl fu
+//
+// LRUN <same fields as RUN>            long run, SPARSE recording: updateSMO calls are only counted; every shrink / unshrink /
+//   checkKKT call is recorded with the state BEFORE the call (line  P nsmo <snapshot>) and after it (E line): the
+//   shrink-event monitor of tools/c08.py and the model's shrink (incl. the composite unshrink; recompute bounds; shrink
+//   again, C08Reshrink.v) work on these pairs.
+// HIST <same fields as RUN> NM m_1 .. m_NM    object history: the problem object is solved (recorded like RUN), then the
+//   public mutators m_k are applied to the SAME object (each recorded as an event  E <name> args <snapshot>), then it is
+//   solved again (line SOLVE2, events, F, END); finally a FRESH object is built from the modified data and solved from
+//   alpha = 0 (line  FRESH type iterations value accuracy  objective-recomputed-by-the-harness is NOT printed: the
+//   unpermuted alpha follows and tools/c08.py recomputes the objective itself).
+//   mutators (variables are addressed by their ORIGINAL index p; the harness looks up the current position):
+//     L p v      setLinear(pos(p), v)            I v_0 .. v_{n-1}   setInitialSolution(alpha)   (alpha by original index)
+//     S f v      scaleBoxConstraints(f, v)  (equality-constrained kind over CSVMProblem only: the other classes have no
+//                such member / it does not compile)        A p   activateVariable(pos(p))
+//     X p q      flipCoordinates(pos(p), pos(q))           U     unshrink()            T b   setShrinking(b)
+//   events:  E setlin a v | E setinit v_0..v_{n-1} | E scale f v cp cn | E activate a | E flip a b | E unshrink | E setshr b
 #include <cstdio>
 #include <cstdlib>
 #include <cstring>
@@ -56,7 +72,9 @@ struct Recorder {
 	typedef typename P::PreferedSelectionStrategy PreferedSelectionStrategy;
 	P& p;
 	long events;
-	Recorder(P& p): p(p), events(0) {}
+	bool sparse;      // LRUN: updateSMO only counted, other events recorded with their pre-state
+	long nsmo;
+	Recorder(P& p, bool sparse = false): p(p), events(0), sparse(sparse), nsmo(0) {}
 
 	// ---- forwarded read access used by the selection strategies and the solver
 	std::size_t dimensions() const { return p.dimensions(); }
@@ -88,45 +106,123 @@ struct Recorder {
 		std::fprintf(OUT, "\n");
 	}
 	bool rec() { return events++ < MAXEV; }
+	void pre() { if (sparse && events < MAXEV) { std::fprintf(OUT, "P %ld", nsmo); snapshot(); } }
 
 	// ---- forwarded mutators, recorded
 	void updateSMO(std::size_t i, std::size_t j) {
 		p.updateSMO(i, j);
+		nsmo++;
+		if (sparse) return;
 		if (rec()) { std::fprintf(OUT, "E smo %zu %zu", i, j); snapshot(); }
 	}
 	bool shrink(double eps) {
+		pre();
 		bool r = p.shrink(eps);
 		if (rec()) { std::fprintf(OUT, "E shrink %a %d", eps, (int)r); snapshot(); }
 		return r;
 	}
 	void unshrink() {
+		pre();
 		p.unshrink();
 		if (rec()) { std::fprintf(OUT, "E unshrink"); snapshot(); }
 	}
 	double checkKKT() {
+		pre();
 		double v = p.checkKKT();
 		if (rec()) { std::fprintf(OUT, "E kkt %a", v); snapshot(); }
 		return v;
 	}
 };
 
+struct Mut { char code; std::size_t p, q; double v, w; std::vector<double> vals; };
+// data of the (modified) problem by ORIGINAL index, read back from the reused object after its second solve
+struct Mod { bool have; std::vector<double> lin, lo, hi; double cp, cn; Mod(): have(false), cp(0), cn(0) {} };
+
 struct Cfg {
-	std::string id, kind, sel, matrix, kernel;
+	std::string tag, id, kind, sel, matrix, kernel;
 	int shrink; std::size_t cachesize; double gamma, Cneg, Cpos, eps; unsigned long long maxiter;
-	std::size_t n, d; int warm; bool general;
+	std::size_t n, d; int warm; bool general; bool fresh;
 	std::vector<unsigned int> y; std::vector<RealVector> x; RealVector a0;
+	std::vector<Mut> muts; mutable Mod mod;
 };
+
+// ---- class-specific pieces of the object-history stage
+template<class M> void readC(CSVMProblem<M> const& b, double& cp, double& cn) { cp = b.m_Cp; cn = b.m_Cn; }
+template<class M> void readC(GeneralQuadraticProblem<M> const&, double&, double&) {}
+template<class M> void applyData(CSVMProblem<M>& b, Mod const& m) {
+	for (std::size_t p = 0; p < b.dimensions(); p++) b.linear(p) = m.lin[p];
+	b.m_Cp = m.cp; b.m_Cn = m.cn;
+}
+template<class M> void applyData(GeneralQuadraticProblem<M>& b, Mod const& m) {
+	for (std::size_t p = 0; p < b.dimensions(); p++) { b.linear(p) = m.lin[p]; b.boxMin(p) = m.lo[p]; b.boxMax(p) = m.hi[p]; }
+}
+// scaleBoxConstraints(factor, variableScalingFactor) exists (and compiles) only for the equality-constrained problem over CSVMProblem
+template<class P> struct Scaler {
+	static void go(P&, double, double, double&, double&) { throw std::runtime_error("scaleBoxConstraints is not available for this problem class"); }
+};
+template<class M> struct Scaler<SvmShrinkingProblem<CSVMProblem<M> > > {
+	typedef SvmShrinkingProblem<CSVMProblem<M> > P;
+	static void go(P& p, double f, double v, double& cp, double& cn) { cp = p.m_problem.m_Cp; cn = p.m_problem.m_Cn; p.scaleBoxConstraints(f, v); }
+};
+
+template<class ProblemType>
+std::size_t posOf(ProblemType const& problem, std::size_t orig) {
+	for (std::size_t a = 0; a < problem.dimensions(); a++) if (problem.permutation(a) == orig) return a;
+	throw std::runtime_error("original index not found in the permutation");
+}
+
+template<class ProblemType>
+void applyMut(ProblemType& problem, Recorder<ProblemType>& rec, Mut const& m) {
+	std::size_t n = problem.dimensions();
+	switch (m.code) {
+	case 'L': { std::size_t a = posOf(problem, m.p); problem.setLinear(a, m.v); std::fprintf(OUT, "E setlin %zu %a", a, m.v); break; }
+	case 'I': { RealVector al(n); for (std::size_t i = 0; i < n; i++) al(i) = m.vals[i];
+	            problem.setInitialSolution(al); std::fprintf(OUT, "E setinit"); for (std::size_t i = 0; i < n; i++) std::fprintf(OUT, " %a", m.vals[i]); break; }
+	case 'S': { double cp = 0, cn = 0; Scaler<ProblemType>::go(problem, m.v, m.w, cp, cn); std::fprintf(OUT, "E scale %a %a %a %a", m.v, m.w, cp, cn); break; }
+	case 'A': { std::size_t a = posOf(problem, m.p); problem.activateVariable(a); std::fprintf(OUT, "E activate %zu", a); break; }
+	case 'X': { std::size_t a = posOf(problem, m.p), b = posOf(problem, m.q); problem.flipCoordinates(a, b); std::fprintf(OUT, "E flip %zu %zu", a, b); break; }
+	case 'U': { problem.unshrink(); std::fprintf(OUT, "E unshrink"); break; }
+	case 'T': { problem.setShrinking(m.p != 0); std::fprintf(OUT, "E setshr %d", (int)(m.p != 0)); break; }
+	default: throw std::runtime_error("bad mutator");
+	}
+	rec.snapshot();
+}
 
 template<class ProblemType, class Sel>
 void solveWith(ProblemType& problem, Cfg const& c) {
-	Recorder<ProblemType> rec(problem);
-	std::fprintf(OUT, "S0"); rec.snapshot();
-	QpSolver<Recorder<ProblemType>, Sel> solver(rec);
 	QpStoppingCondition stop(c.eps, c.maxiter);
 	QpSolutionProperties prop;
+	if (c.fresh) {
+		// reference for the object-history stage: a fresh object with the modified data, solved from alpha = 0, not recorded
+		QpSolver<ProblemType, Sel> solver(problem);
+		solver.solve(stop, &prop);
+		std::fprintf(OUT, "FRESH %d %llu %a %a %zu", (int)prop.type, prop.iterations, prop.value, prop.accuracy, problem.active());
+		RealVector al = problem.getUnpermutedAlpha();
+		for (std::size_t i = 0; i < al.size(); i++) std::fprintf(OUT, " %a", al(i));
+		std::fprintf(OUT, "\n");
+		return;
+	}
+	Recorder<ProblemType> rec(problem, c.tag == "LRUN");
+	std::fprintf(OUT, "S0"); rec.snapshot();
+	QpSolver<Recorder<ProblemType>, Sel> solver(rec);
 	solver.solve(stop, &prop);
 	std::fprintf(OUT, "F"); rec.snapshot();
 	std::fprintf(OUT, "END %d %llu %a %a\n", (int)prop.type, prop.iterations, prop.value, prop.accuracy);
+	if (c.tag != "HIST") return;
+	std::fprintf(OUT, "MUT\n");
+	for (std::size_t k = 0; k < c.muts.size(); k++) applyMut(problem, rec, c.muts[k]);
+	std::fprintf(OUT, "SOLVE2\n");
+	solver.solve(stop, &prop);
+	std::fprintf(OUT, "F"); rec.snapshot();
+	std::fprintf(OUT, "END %d %llu %a %a\n", (int)prop.type, prop.iterations, prop.value, prop.accuracy);
+	// the data the object now stands for, by original index
+	std::size_t n = problem.dimensions();
+	Mod& m = c.mod; m.have = true; m.lin.assign(n, 0); m.lo.assign(n, 0); m.hi.assign(n, 0);
+	for (std::size_t a = 0; a < n; a++) {
+		std::size_t p = problem.permutation(a);
+		m.lin[p] = problem.linear(a); m.lo[p] = problem.m_problem.boxMin(a); m.hi[p] = problem.m_problem.boxMax(a);
+	}
+	readC(problem.m_problem, m.cp, m.cn);
 }
 
 template<class SVMProblemType> void runProblem(SVMProblemType& svmProblem, Cfg const& c);
@@ -134,9 +230,11 @@ template<class SVMProblemType> void runProblem(SVMProblemType& svmProblem, Cfg c
 template<class Matrix>
 void runMatrix(Matrix& matrix, Cfg const& c, Data<unsigned int> const& labels) {
 	std::size_t n = c.n;
-	std::fprintf(OUT, "K");
-	for (std::size_t i = 0; i < n; i++) for (std::size_t j = 0; j < n; j++) std::fprintf(OUT, " %a", (double)matrix.entry(i, j));
-	std::fprintf(OUT, "\n");
+	if (!c.fresh) {
+		std::fprintf(OUT, "K");
+		for (std::size_t i = 0; i < n; i++) for (std::size_t j = 0; j < n; j++) std::fprintf(OUT, " %a", (double)matrix.entry(i, j));
+		std::fprintf(OUT, "\n");
+	}
 	RealVector reg(2); reg(0) = c.Cneg; reg(1) = c.Cpos;
 	if (c.general) {
 		// GeneralQuadraticProblem (the class behind weighted C-SVMs and ranking SVMs) with unit example weights: numerically the
@@ -144,10 +242,12 @@ void runMatrix(Matrix& matrix, Cfg const& c, Data<unsigned int> const& labels) {
 		typedef GeneralQuadraticProblem<Matrix> GProblemType;
 		Data<double> weights = createDataFromRange(std::vector<double>(n, 1.0));
 		GProblemType gProblem(matrix, labels, weights, reg);
+		if (c.fresh) applyData(gProblem, c.mod);
 		runProblem(gProblem, c);
 	} else {
 		typedef CSVMProblem<Matrix> SVMProblemType;
 		SVMProblemType svmProblem(matrix, labels, reg);
+		if (c.fresh) applyData(svmProblem, c.mod);
 		runProblem(svmProblem, c);
 	}
 }
@@ -157,7 +257,7 @@ void runProblem(SVMProblemType& svmProblem, Cfg const& c) {
 	if (c.kind == "svm") {
 		typedef SvmShrinkingProblem<SVMProblemType> ProblemType;
 		ProblemType problem(svmProblem, c.shrink != 0);
-		if (c.warm) problem.setInitialSolution(c.a0);
+		if (c.warm && !c.fresh) problem.setInitialSolution(c.a0);
 		if (c.sel == "mvp") solveWith<ProblemType, MVPSelectionCriterion>(problem, c);
 		else if (c.sel == "libsvm") solveWith<ProblemType, LibSVMSelectionCriterion>(problem, c);
 		else if (c.sel == "hmg") solveWith<ProblemType, HMGSelectionCriterion>(problem, c);
@@ -165,7 +265,7 @@ void runProblem(SVMProblemType& svmProblem, Cfg const& c) {
 	} else {
 		typedef BoxConstrainedShrinkingProblem<SVMProblemType> ProblemType;
 		ProblemType problem(svmProblem, c.shrink != 0);
-		if (c.warm) problem.setInitialSolution(c.a0);
+		if (c.warm && !c.fresh) problem.setInitialSolution(c.a0);
 		if (c.sel == "maxgain") solveWith<ProblemType, MaximumGainCriterion>(problem, c);
 		else if (c.sel == "maxgrad") solveWith<ProblemType, MaximumGradientCriterion>(problem, c);
 		else if (c.sel == "ws2") solveWith<ProblemType, WS2MaximumGradientCriterion>(problem, c);
@@ -173,24 +273,30 @@ void runProblem(SVMProblemType& svmProblem, Cfg const& c) {
 	}
 }
 
-void runCase(Cfg const& c) {
+void runCase(Cfg& c) {
 	std::fprintf(OUT, "RUN %s %zu %s %d\n", c.id.c_str(), c.n, c.kind.c_str(), c.shrink);
 	Data<RealVector> inputs = createDataFromRange(c.x);
 	Data<unsigned int> labels = createDataFromRange(c.y);
 	std::unique_ptr<AbstractKernelFunction<RealVector> > kernel;
 	if (c.kernel == "lin") kernel.reset(new LinearKernel<RealVector>());
 	else kernel.reset(new GaussianRbfKernel<RealVector>(c.gamma));
-	if (c.matrix == "cf") {
-		typedef KernelMatrix<RealVector, float> KM; KM km(*kernel, inputs);
-		CachedMatrix<KM> m(&km, c.cachesize); runMatrix(m, c, labels);
-	} else if (c.matrix == "cd") {
-		typedef KernelMatrix<RealVector, double> KM; KM km(*kernel, inputs);
-		CachedMatrix<KM> m(&km, c.cachesize); runMatrix(m, c, labels);
-	} else {
-		typedef KernelMatrix<RealVector, double> KM; KM km(*kernel, inputs);
-		PrecomputedMatrix<KM> m(&km); runMatrix(m, c, labels);
+	for (int pass = 0; pass < 2; pass++) {
+		c.fresh = pass == 1;
+		if (c.fresh && !(c.tag == "HIST" && c.mod.have)) break;       // second pass: fresh object with the modified data
+		if (c.matrix == "cf") {
+			typedef KernelMatrix<RealVector, float> KM; KM km(*kernel, inputs);
+			CachedMatrix<KM> m(&km, c.cachesize); runMatrix(m, c, labels);
+		} else if (c.matrix == "cd") {
+			typedef KernelMatrix<RealVector, double> KM; KM km(*kernel, inputs);
+			CachedMatrix<KM> m(&km, c.cachesize); runMatrix(m, c, labels);
+		} else {
+			typedef KernelMatrix<RealVector, double> KM; KM km(*kernel, inputs);
+			PrecomputedMatrix<KM> m(&km); runMatrix(m, c, labels);
+		}
 	}
 }
+
+static double rd(std::istringstream& ss) { std::string t; ss >> t; return std::strtod(t.c_str(), 0); }
 
 int main(int argc, char** argv) {
 	if (argc < 2) { std::fprintf(stderr, "usage: c08_smo casefile [maxevents]\n"); return 2; }
@@ -200,15 +306,28 @@ int main(int argc, char** argv) {
 	while (std::getline(in, line)) {
 		if (line.empty() || line[0] == '#') continue;
 		std::istringstream ss(line);
-		std::string tag; Cfg c; std::string g, cn, cp, e;
-		ss >> tag >> c.id >> c.kind >> c.sel >> c.shrink >> c.matrix >> c.cachesize >> c.kernel >> g >> cn >> cp >> e >> c.maxiter >> c.n >> c.d >> c.warm;
+		Cfg c; std::string g, cn, cp, e;
+		ss >> c.tag >> c.id >> c.kind >> c.sel >> c.shrink >> c.matrix >> c.cachesize >> c.kernel >> g >> cn >> cp >> e >> c.maxiter >> c.n >> c.d >> c.warm;
+		c.fresh = false;
 		c.general = c.matrix.size() == 3 && c.matrix[2] == 'g'; if (c.general) c.matrix = c.matrix.substr(0, 2);   // cfg / cdg / pdg: GeneralQuadraticProblem
 		c.gamma = std::strtod(g.c_str(), 0); c.Cneg = std::strtod(cn.c_str(), 0); c.Cpos = std::strtod(cp.c_str(), 0); c.eps = std::strtod(e.c_str(), 0);
 		c.y.resize(c.n); for (std::size_t i = 0; i < c.n; i++) ss >> c.y[i];
 		c.x.assign(c.n, RealVector(c.d));
-		for (std::size_t i = 0; i < c.n; i++) for (std::size_t k = 0; k < c.d; k++) { std::string t; ss >> t; c.x[i](k) = std::strtod(t.c_str(), 0); }
+		for (std::size_t i = 0; i < c.n; i++) for (std::size_t k = 0; k < c.d; k++) c.x[i](k) = rd(ss);
 		c.a0.resize(c.n);
-		if (c.warm) for (std::size_t i = 0; i < c.n; i++) { std::string t; ss >> t; c.a0(i) = std::strtod(t.c_str(), 0); }
+		if (c.warm) for (std::size_t i = 0; i < c.n; i++) c.a0(i) = rd(ss);
+		if (c.tag == "HIST") {
+			std::size_t nm = 0; ss >> nm;
+			for (std::size_t k = 0; k < nm; k++) {
+				Mut m; m.p = m.q = 0; m.v = m.w = 0; std::string code; ss >> code; m.code = code.empty() ? '?' : code[0];
+				if (m.code == 'L') { ss >> m.p; m.v = rd(ss); }
+				else if (m.code == 'I') { for (std::size_t i = 0; i < c.n; i++) m.vals.push_back(rd(ss)); }
+				else if (m.code == 'S') { m.v = rd(ss); m.w = rd(ss); }
+				else if (m.code == 'A' || m.code == 'T') ss >> m.p;
+				else if (m.code == 'X') ss >> m.p >> m.q;
+				c.muts.push_back(m);
+			}
+		}
 		try { runCase(c); }
 		catch (shark::Exception const& ex) { std::fprintf(OUT, "EXC %s\n", ex.what()); }
 		catch (std::exception const& ex) { std::fprintf(OUT, "STDEXC %s\n", ex.what()); }
